@@ -11,8 +11,11 @@
 //   variant<Ts...>        operator[](index_v<I>) and unchecked_get<I> for every (I, active) pair, I != active
 //   bitset<N>             set/reset/flip/test/operator[] with pos >= N; string constructors
 //   basic_bitset<N,W>     operator[], unchecked_test/set/reset/flip with pos >= N
-// Not in the catalogue: optional::operator-> / expected::operator-> (return a null pointer for the
-// empty state - documented for optional), get_if (null pointer by specification).
+// optional::operator-> / expected::operator-> (return a null pointer for the empty state - documented for
+// optional), value_or, has_value, reset, get_if<I>/get_if<T> (pointer / const pointer / nullptr) and
+// holds_alternative have wide contracts: they appear as controls for every state (round 2).
+// Round 2 also adds the fixed-extent span constructors from a sized range and from a dynamic span (non-const
+// lvalue, const lvalue, prvalue sources); variant lives in MC_PART 4 (compile time).
 #include "c05_common.hpp"
 
 #include <etl/array.hpp>
@@ -22,6 +25,7 @@
 #include <etl/span.hpp>
 #include <etl/string_view.hpp>
 #include <etl/variant.hpp>
+#include <etl/vector.hpp>
 
 #include <utility>
 
@@ -187,6 +191,63 @@ void span_fixed_cases(Catalogue& c, bool thorough)
         int* p  = cx.buffer<int>(N + 3, 10, 1);
         cx.call([&] { ::new (static_cast<void*>(raw)) Sp(p, N); });
     });
+    // round 2: the other two ways of giving a fixed-extent span a run-time size ([span.cons]: size == extent)
+    //   span<T const,N>(sized contiguous range)   here: static_vector<int,N+3> of every size 0..N+3
+    //   span<T,N>(span<U,dynamic_extent>)         here: dynamic spans of every length 0..N+3
+    using CSp = etl::span<int const, N>;
+    using SV  = etl::static_vector<int, N + 3>;
+    for (std::size_t cnt = 0; cnt <= N + 3; ++cnt) {
+        std::string const cls = cnt == N ? "size_eq_extent" : cnt > N ? "size_gt_extent" : "size_lt_extent";
+        auto fromRange        = [=](Ctx& cx) {
+            CSp* raw = cx.raw<CSp>();
+            SV* v    = cx.make<SV>();
+            for (std::size_t i = 0; i < cnt; ++i) { v->push_back(int(10 + i)); }
+            cx.call([&] { ::new (static_cast<void*>(raw)) CSp(static_cast<SV const&>(*v)); });
+        };
+        auto fromSpan = [=](Ctx& cx) {
+            Sp* raw = cx.raw<Sp>();
+            int* p  = cx.buffer<int>(N + 3, 10, 1);
+            auto* d = cx.make<etl::span<int>>(p, cnt);
+            cx.call([&] { ::new (static_cast<void*>(raw)) Sp(*d); });
+        };
+        auto fromConstSpan = [=](Ctx& cx) {
+            CSp* raw = cx.raw<CSp>();
+            int* p   = cx.buffer<int>(N + 3, 10, 1);
+            auto* d  = cx.make<etl::span<int>>(p, cnt);
+            cx.call([&] { ::new (static_cast<void*>(raw)) CSp(*d); });
+        };
+        // a non-const lvalue span is taken by the range constructor (its constraint tests is_span<R> with R = span&),
+        // a const lvalue and a prvalue by the converting constructor: all three must check the size
+        auto fromConstLvalue = [=](Ctx& cx) {
+            Sp* raw = cx.raw<Sp>();
+            int* p  = cx.buffer<int>(N + 3, 10, 1);
+            auto* d = cx.make<etl::span<int>>(p, cnt);
+            cx.call([&] { ::new (static_cast<void*>(raw)) Sp(static_cast<etl::span<int> const&>(*d)); });
+        };
+        auto fromPrvalue = [=](Ctx& cx) {
+            Sp* raw = cx.raw<Sp>();
+            int* p  = cx.buffer<int>(N + 3, 10, 1);
+            cx.call([&] { ::new (static_cast<void*>(raw)) Sp(etl::span<int>(p, cnt)); });
+        };
+        std::string const t1 = cat("span<int const,", N, ">(static_vector<int,", N + 3, "> of size ", cnt, ")");
+        std::string const t2 = cat("span<int,", N, ">(span<int> of ", cnt, ")");
+        std::string const t3 = cat("span<int const,", N, ">(span<int> of ", cnt, ")");
+        std::string const t4 = cat("span<int,", N, ">(span<int> const& of ", cnt, ")");
+        std::string const t5 = cat("span<int,", N, ">(span<int>(p, ", cnt, "))");
+        if (cnt == N) {
+            c.ok("span<T,N>::span(range)", cls, t1, fromRange);
+            c.ok("span<T,N>::span(span<U,dynamic_extent>)", cls, t2, fromSpan);
+            c.ok("span<T,N>::span(span<U,dynamic_extent>)", cls, t3, fromConstSpan);
+            c.ok("span<T,N>::span(span<U,dynamic_extent>)", cls, t4, fromConstLvalue);
+            c.ok("span<T,N>::span(span<U,dynamic_extent>)", cls, t5, fromPrvalue);
+        } else {
+            c.bad("span<T,N>::span(range)", cls, t1, F, fromRange, false);
+            c.bad("span<T,N>::span(span<U,dynamic_extent>)", cls, t2, F, fromSpan, false);
+            c.bad("span<T,N>::span(span<U,dynamic_extent>)", cls, t3, F, fromConstSpan, false);
+            c.bad("span<T,N>::span(span<U,dynamic_extent>)", cls, t4, F, fromConstLvalue, false);
+            c.bad("span<T,N>::span(span<U,dynamic_extent>)", cls, t5, F, fromPrvalue, false);
+        }
+    }
 }
 
 // ---------------------------------------------------------------------------------------------
@@ -289,6 +350,20 @@ void optional_cases(Catalogue& c, char const* tn)
         row("optional::operator*() const&", [](O& o) { touch(*static_cast<O const&>(o)); });
         row("optional::operator*() &&", [](O& o) { touch(*std::move(o)); });
         row("optional::operator*() const&&", [](O& o) { touch(*std::move(static_cast<O const&>(o))); });
+        // round 2: the wide-contract observers of the same states never reach the handler
+        auto wide = [&](char const* subject, auto fn) {
+            c.ok(subject, empty ? "empty" : "engaged", cat(st, ": ", subject), [=](Ctx& cx) {
+                O* o = mk(cx);
+                cx.call([&] { fn(*o); });
+            });
+        };
+        wide("optional::operator->()", [](O& o) { sink(o.operator->()); });
+        wide("optional::operator->() const", [](O& o) { sink(static_cast<O const&>(o).operator->()); });
+        wide("optional::value_or(default) const&", [](O& o) { sink(static_cast<O const&>(o).value_or(T(3))); });
+        wide("optional::value_or(default) &&", [](O& o) { sink(std::move(o).value_or(T(3))); });
+        wide("optional::has_value()", [](O& o) { sink(o.has_value()); });
+        wide("optional::reset()", [](O& o) { o.reset(); });
+        wide("optional::operator==(optional,nullopt)", [](O& o) { sink(o == etl::nullopt); });
     }
 }
 
@@ -311,6 +386,12 @@ void optional_ref_cases(Catalogue& c)
         } else {
             c.ok("optional<T&>::operator*()", "bound", cat(st, ": *o"), body);
         }
+        c.ok("optional<T&>::operator->()", empty ? "empty" : "bound", cat(st, ": o.operator->()"), [=](Ctx& cx) {
+            int* target = cx.buffer<int>(1, 5, 0);
+            O* o        = state == 3 ? cx.make<O>(etl::nullopt) : (state == 0 ? cx.make<O>() : cx.make<O>(*target));
+            if (state == 2) { o->reset(); }
+            cx.call([&] { sink(o->operator->()); });
+        });
     }
 }
 
@@ -347,8 +428,28 @@ void expected_cases(Catalogue& c, char const* tn, char const* en)
         row(has, "expected::error() const&", [](X& x) { touch(static_cast<X const&>(x).error()); });
         row(has, "expected::error() &&", [](X& x) { touch(std::move(x).error()); });
         row(has, "expected::error() const&&", [](X& x) { touch(std::move(static_cast<X const&>(x)).error()); });
+        // round 2: wide-contract observers of the same states
+        row(false, "expected::operator->()", [](X& x) { sink(x.operator->()); });
+        row(false, "expected::operator->() const", [](X& x) { sink(static_cast<X const&>(x).operator->()); });
+        row(false, "expected::value_or(fallback) const&", [](X& x) { sink(static_cast<X const&>(x).value_or(T(3))); });
+        row(false, "expected::value_or(fallback) &&", [](X& x) { sink(std::move(x).value_or(T(3))); });
+        row(false, "expected::has_value()", [](X& x) { sink(x.has_value()); });
     }
 }
+
+template <typename F>
+auto stateless_call(F fn)
+{
+    return [=](Ctx& cx) {
+        (void)cx.raw<char>(1);
+        cx.call([&] { fn(); });
+    };
+}
+
+template <typename T, typename V>
+struct unique_alternative;
+template <typename T, typename... Ts>
+struct unique_alternative<T, etl::variant<Ts...>> : std::bool_constant<(std::size_t(std::is_same_v<T, Ts>) + ...) == 1> { };
 
 template <typename V, std::size_t Active, std::size_t... Is>
 void variant_rows(Catalogue& c, char const* F, bool viaAssign, std::index_sequence<Is...>)
@@ -388,6 +489,35 @@ void variant_rows(Catalogue& c, char const* F, bool viaAssign, std::index_sequen
             cx.call([&] { sink(etl::get_if<I>(v)); });
         };
         c.ok("get_if<I>(variant*)", bad ? "index_ne_active" : "index_eq_active", cat(st, ": get_if<", I, ">(&v)"), body);
+        // (variants of up to three alternatives: keeps the compile time of this translation unit in bounds)
+        if constexpr (sizeof...(Is) <= 3) {
+            if (viaAssign) { return; }
+            // round 2: the other get_if forms and holds_alternative (wide contracts, null pointer included)
+            c.ok("get_if<I>(variant const*)", bad ? "index_ne_active" : "index_eq_active", cat(st, ": get_if<", I, ">(&cv)"), [=](Ctx& cx) {
+                V* v = mk(cx);
+                cx.call([&] { sink(etl::get_if<I>(static_cast<V const*>(v))); });
+            });
+            if constexpr (Active == 0) {
+                c.ok("get_if<I>(variant*)", "null_pointer", cat("get_if<", I, ">((variant*)nullptr)"), stateless_call([] { sink(etl::get_if<I>(static_cast<V*>(nullptr))); }));
+                c.ok("get_if<I>(variant const*)", "null_pointer", cat("get_if<", I, ">((variant const*)nullptr)"),
+                    stateless_call([] { sink(etl::get_if<I>(static_cast<V const*>(nullptr))); }));
+            }
+            using Alt = etl::variant_alternative_t<I, V>;
+            if constexpr (unique_alternative<Alt, V>::value) {
+                c.ok("get_if<T>(variant*)", bad ? "type_ne_active" : "type_eq_active", cat(st, ": get_if<alternative ", I, ">(&v)"), [=](Ctx& cx) {
+                    V* v = mk(cx);
+                    cx.call([&] { sink(etl::get_if<Alt>(v)); });
+                });
+                c.ok("get_if<T>(variant const*)", bad ? "type_ne_active" : "type_eq_active", cat(st, ": get_if<alternative ", I, ">(&cv)"), [=](Ctx& cx) {
+                    V* v = mk(cx);
+                    cx.call([&] { sink(etl::get_if<Alt>(static_cast<V const*>(v))); });
+                });
+                c.ok("holds_alternative<T>(variant)", bad ? "type_ne_active" : "type_eq_active", cat(st, ": holds_alternative<alternative ", I, ">(v)"), [=](Ctx& cx) {
+                    V* v = mk(cx);
+                    cx.call([&] { sink(etl::holds_alternative<Alt>(*v)); });
+                });
+            }
+        }
     };
     (one(std::integral_constant<std::size_t, Is>{}), ...);
 }
@@ -568,6 +698,7 @@ int main(int argc, char** argv)
         }
         run(r, c);
     });
+#elif MC_PART == 4 // round 2: variant in a translation unit of its own (compile time)
     m.job("variant", both, [](mc::Reporter& r) {
         Catalogue c;
         variant_cases<etl::variant<int, char, float>>(c, "variant<int,char,float>", std::make_index_sequence<3>{});
@@ -575,7 +706,7 @@ int main(int argc, char** argv)
         if (r.thorough()) { variant_cases<etl::variant<char, NTV, int, short>>(c, "variant<char,NTV,int,short>", std::make_index_sequence<4>{}); }
         run(r, c);
     });
-#else
+#elif MC_PART == 3
     m.job("bitset", both, [](mc::Reporter& r) {
         Catalogue c;
         bitset_cases<1>(c, r.thorough());
